@@ -38,6 +38,8 @@ func runC16(c *Ctx) {
 	c16Capacity(c)
 	c16HeaderLast(c)
 	c16Order(c)
+	c16NoReorder(c)
+	c16PeekLifetime(c)
 }
 
 const cdbShort = "go-cdb"
@@ -1199,4 +1201,117 @@ func c16Order(c *Ctx) {
 		c.Check(rule, fnName(fn)+"|entries-placed-in-list-order", fwd, fn.Pos(), "the per-table list is walked from its first element to its last")
 	}
 	c.Floor(rule, 4)
+}
+
+// c16NoReorder / c16PeekLifetime: two more order/aliasing obligations found by the seeded-change round.
+func c16NoReorder(c *Ctx) {
+	rule := "C16.order"
+	for _, fn := range c.OurFuncs(cdbShort) {
+		for _, ci := range callInstrs(fn) {
+			f := calleeOf(ci.Common())
+			if f == nil || f.Pkg() == nil || f.Pkg().Path() != "sort" && f.Pkg().Path() != "slices" {
+				continue
+			}
+			touches := false
+			for _, a := range ci.Common().Args {
+				for v := range backSlice(a, nil) {
+					if v != nil && strings.Contains(v.Type().String(), cdbPath+".slot") {
+						touches = true
+					}
+				}
+			}
+			if !touches {
+				continue
+			}
+			c.Examined(fn)
+			stable := strings.Contains(f.Name(), "Stable")
+			c.Check(rule, fmt.Sprintf("%s|%s.%s-of-slots", fnName(fn), f.Pkg().Name(), f.Name()), stable, ci.Pos(), "the slots of one table are placed in insertion order; an unstable sort permutes the values of a key (all of them share one home slot)")
+		}
+	}
+}
+
+func c16PeekLifetime(c *Ctx) {
+	rule := "C16.peek-lifetime"
+	c.Rule(rule, "A3 lifetime of borrowed buffers in package go-cdb: a slice returned by (*bufio.Reader).Peek / ReadSlice is valid only until the next read on that reader; it (or a re-slice of it) is not used after another reading call on the same reader is reachable")
+	n := 0
+	for _, fn := range c.OurFuncs(cdbShort) {
+		for _, ci := range callInstrs(fn) {
+			f := calleeOf(ci.Common())
+			if f == nil || f.Pkg() == nil || f.Pkg().Path() != "bufio" || (funcShort(f) != "Reader.Peek" && funcShort(f) != "Reader.ReadSlice") {
+				continue
+			}
+			call, ok := ci.(*ssa.Call)
+			if !ok {
+				continue
+			}
+			n++
+			c.Examined(fn)
+			rd := call.Call.Args[0]
+			// aliases of the borrowed slice
+			alias := map[ssa.Value]bool{}
+			for _, r := range *call.Referrers() {
+				if ex, ok := r.(*ssa.Extract); ok && ex.Index == 0 {
+					alias[ex] = true
+				}
+			}
+			for changed := true; changed; {
+				changed = false
+				for a := range alias {
+					if a.Referrers() == nil {
+						continue
+					}
+					for _, r := range *a.Referrers() {
+						switch x := r.(type) {
+						case *ssa.Slice:
+							if !alias[x] {
+								alias[x] = true
+								changed = true
+							}
+						case *ssa.Phi:
+							if !alias[x] {
+								alias[x] = true
+								changed = true
+							}
+						}
+					}
+				}
+			}
+			// later reads on the same reader
+			var later []ssa.Instruction
+			for _, cj := range callInstrs(fn) {
+				g := calleeOf(cj.Common())
+				if g == nil || cj == ci || len(cj.Common().Args) == 0 {
+					continue
+				}
+				if !(sameSources(cj.Common().Args[0], rd) || (pathOf(rd) != "" && pathOf(rd) == pathOf(cj.Common().Args[0]))) {
+					continue
+				}
+				if g.Pkg() != nil && g.Pkg().Path() == "bufio" && instrReaches(ci, cj) {
+					later = append(later, cj)
+				}
+			}
+			bad := ""
+			for a := range alias {
+				for _, r := range *a.Referrers() {
+					if _, isDbg := r.(*ssa.DebugRef); isDbg {
+						continue
+					}
+					for _, l := range later {
+						if instrReaches(l, r) && r != l {
+							bad = fmt.Sprintf("used at %s after %s", c.relPos(r.Pos()), c.relPos(l.Pos()))
+						}
+					}
+				}
+			}
+			for a := range alias {
+				for _, r := range *a.Referrers() {
+					if _, isRet := r.(*ssa.Return); isRet && bad == "" {
+						bad = "returned to the caller at " + c.relPos(r.Pos()) + " (it outlives the next read)"
+					}
+				}
+			}
+			c.Check(rule, fmt.Sprintf("%s|%s#%d", fnName(fn), f.Name(), n), bad == "", ci.Pos(), "borrowed buffer "+bad)
+		}
+	}
+	c.CheckConst(rule, "matcher|borrowing-calls", true, 0, fmt.Sprintf("%d Peek/ReadSlice calls examined in go-cdb (none means nothing is borrowed)", n))
 }
